@@ -1009,4 +1009,137 @@ theorem step_inv {code : Code} {cert : Cert} (h : checkStk code cert = true) {s 
           exact ⟨head_edge (out := x :: xs) hc hbs hall (by simp) g, htail⟩
         · cases he
 
+theorem GamS_nil_inv {st : List Cell} (g : GamS [] st) : st = [] := by
+  generalize hx : ([] : List AE) = x at g
+  cases g with
+  | nil => rfl
+  | cons _ _ => cases hx
+
+theorem GamS_length_pos {x : AE} {xs : List AE} {st : List Cell} (g : GamS (x :: xs) st) : 1 ≤ st.length := by
+  obtain ⟨cs, rest, rfl, ga, _⟩ := GamS_cons_inv g
+  cases ga <;> simp
+
+/-- a recursive loop is left exactly at its floor -/
+theorem popLoop_floor {code : Code} {cert : Cert} (h : checkStk code cert = true) {pc : Nat} {A : Abs}
+    (hl : look cert pc = some A) (hi : code[pc]? = some .popLoopFrame) {t : Nat} {L : List Nat}
+    (hA : A.loops = t :: L) (hr : isRecLoop code t = true) : floorOf cert t = some A.stk.length := by
+  have hp := checkPc_of h hl
+  unfold checkPc at hp
+  rw [hl] at hp
+  simp only at hp
+  cases hfs : floorsOf code cert A.loops with
+  | none => rw [hfs] at hp; simp at hp
+  | some fs =>
+    rw [hfs] at hp
+    simp only [Bool.and_eq_true] at hp
+    have := hp.2
+    rw [hi, hA] at this
+    simp only [hr, if_true, decide_eq_true_eq] at this
+    exact this
+
+/-- in every state the invariant describes, the instruction about to execute does not panic -/
+theorem inv_pre {code : Code} {cert : Cert} (h : checkStk code cert = true) {s : State}
+    (hinv : Inv code cert s) {i : Instr} (hi : code[s.pc]? = some i) : pre i s = true := by
+  obtain ⟨⟨A, base, f, hl, hc, hbs⟩, _⟩ := hinv
+  have hca := checkAt_of h hl hc
+  obtain ⟨es, he, _⟩ := edges_of hca hi
+  have g := hc.2.1
+  by_cases hs : isStraight i = true
+  · rw [absEdges_straight _ _ hs] at he
+    cases ha : absStk i (A.stk.take (A.stk.length - f)) with
+    | none => rw [ha] at he; simp at he
+    | some out => exact absStk_pre hs ha g
+  · generalize hhi : A.stk.take (A.stk.length - f) = hi' at he g
+    cases i <;> simp [isStraight] at hs <;> simp only [pre]
+    case pushLoop r =>
+      cases hi' with
+      | nil => simp [absEdges] at he
+      | cons x xs => simpa using GamS_length_pos g
+    case iterate t =>
+      simp only [absEdges] at he
+      split at he
+      · cases he
+      · rename_i hne
+        obtain ⟨_, _, hb⟩ := hc
+        cases base with
+        | none =>
+          simp only at hb
+          rw [hb.2]
+          cases hA : A.loops with
+          | nil => simp [hA] at hne
+          | cons _ _ => simp
+        | some t' =>
+          simp only at hb
+          obtain ⟨B, inner, _, _, _, _, hlp⟩ := hb
+          rw [hlp]; simp
+    case popLoopFrame =>
+      simp only [absEdges] at he
+      split at he
+      · rename_i u L' hA
+        replace hA : A.loops = u :: L' := hA
+        obtain ⟨_, _, hb⟩ := hc
+        cases base with
+        | none =>
+          simp only at hb
+          rw [hb.2, hA]
+          simp [List.replicate_succ]
+        | some t' =>
+          simp only at hb
+          obtain ⟨B, inner, hr, hlB, hf, hloops, hlp⟩ := hb
+          cases inner with
+          | cons w inner' => rw [hlp]; simp [List.replicate_succ]
+          | nil =>
+            simp only [List.nil_append] at hloops
+            rw [hlp]
+            simp only [List.length_nil, List.replicate_zero, List.nil_append]
+            have hfl := popLoop_floor h hl hi hloops hr
+            rw [hf] at hfl
+            simp only [Option.some.injEq] at hfl
+            have hnil : hi' = [] := by rw [← hhi, hfl]; simp
+            rw [hnil] at g
+            rw [GamS_nil_inv g]
+            cases hsv : s.saved with
+            | nil => rw [hsv] at hbs; simp at hbs
+            | cons _ _ => simp
+      · cases he
+    case jumpIfFalse t =>
+      cases hi' with
+      | nil => simp [absEdges] at he
+      | cons x xs => simpa using GamS_length_pos g
+    case jumpIfFalseOrPop t =>
+      cases hi' with
+      | nil => simp [absEdges] at he
+      | cons x xs => simpa using GamS_length_pos g
+    case jumpIfTrueOrPop t =>
+      cases hi' with
+      | nil => simp [absEdges] at he
+      | cons x xs => simpa using GamS_length_pos g
+    case fastRecurse =>
+      cases hi' with
+      | nil => simp [absEdges] at he
+      | cons x xs => simpa using GamS_length_pos g
+
+/-- region entries satisfy the invariant -/
+theorem init_inv {code : Code} {cert : Cert} (h : checkStk code cert = true) {s : State} (hs : Init code s) :
+    Inv code cert s := by
+  obtain ⟨e, he, hpc, hlen, hlp, hsv⟩ := hs
+  unfold checkStk at h
+  simp only [Bool.and_eq_true, List.all_eq_true, decide_eq_true_eq] at h
+  have hl := h.1.1 e he
+  rw [← hpc] at hl
+  refine ⟨⟨_, none, 0, hl, ⟨Nat.zero_le _, ?_, rfl, by simp [hlp]⟩, by simp [hsv]⟩, by rw [hsv]; trivial⟩
+  simp only [Nat.sub_zero, List.take_length]
+  rw [← hlen]
+  have : ∀ st : List Cell, GamS (List.replicate st.length .v) st := by
+    intro st
+    have := GamS_pushV (stk := []) (st := []) (cs := st) .nil
+    simpa using this
+  exact this s.stack
+
+theorem reach_inv {code : Code} {cert : Cert} (h : checkStk code cert = true) {s t : State}
+    (hs : Inv code cert s) (hr : Reach code s t) : Inv code cert t := by
+  induction hr with
+  | refl => exact hs
+  | tail _ hstep ih => exact step_inv h ih hstep
+
 end MJ.Stk
